@@ -13,9 +13,11 @@ package harness
 import (
 	"fmt"
 	"math/rand"
+	"strings"
 
 	sdkmath "cosmossdk.io/math"
 	sdk "github.com/cosmos/cosmos-sdk/types"
+	banktypes "github.com/cosmos/cosmos-sdk/x/bank/types"
 
 	coinswaptypes "github.com/Canto-Network/Canto/v8/x/coinswap/types"
 	epochstypes "github.com/Canto-Network/Canto/v8/x/epochs/types"
@@ -24,7 +26,8 @@ import (
 	onboardingtypes "github.com/Canto-Network/Canto/v8/x/onboarding/types"
 )
 
-var c18ManyDenoms = []string{"tokena", "tokenb", "tokenc", "tokend", "tokene", "tokenf", "tokeng", "tokenh", "tokeni", "tokenj",
+// the last two differ from the first two only in letter case (denominations are case-sensitive)
+var c18ManyDenoms = []string{"TOKENA", "Tokenb", "tokena", "tokenb", "tokenc", "tokend", "tokene", "tokenf", "tokeng", "tokenh", "tokeni", "tokenj",
 	"tokenk", "tokenl", "tokenm", "tokenn"}
 
 func (r *c18Run) execExtra(op c18Op) bool {
@@ -53,6 +56,44 @@ func (r *c18Run) execExtra(op c18Op) bool {
 		r.count(op, ch.send(&coinswaptypes.MsgAddLiquidity{MaxToken: sdk.NewCoin(d, sdkmath.NewInt(int64(1000+rg.Intn(1_000_000)))),
 			ExactStandardAmt: sdkmath.NewInt(int64(1000 + rg.Intn(1_000_000))), MinLiquidity: sdkmath.OneInt(),
 			Deadline: ch.now.Unix() + 1000, Sender: r.userAcc().String()}))
+	case "regcoin-case":
+		// "equal up to something a sloppy validator might normalise": two registered denominations that differ
+		// only in letter case
+		var pair [2]string
+		switch op.A % 4 {
+		case 0:
+			pair = [2]string{"wave", "WAVE"}
+		case 1:
+			pair = [2]string{"Atomx", "aTOMX"}
+		case 2:
+			pair = [2]string{c18Denoms[3], "ibc/" + strings.ToLower(c18Denoms[3][4:])}
+		default:
+			// the voucher denomination erc20/<EIP-55 address> of a registered ERC-20 and a coin named with the
+			// lower-case hex digits of the same address
+			if len(r.contracts) == 0 {
+				pair = [2]string{"wave", "WAVE"}
+				break
+			}
+			c := r.contracts[op.B%len(r.contracts)]
+			err := ch.send(&erc20types.MsgRegisterERC20{Authority: c18Gov, Title: "t", Description: "d", Erc20Address: c.Hex()})
+			r.e.Stats.Count(fmt.Sprintf("op:regcoin-case:voucher-registered:%v", err == nil))
+			pair = [2]string{"erc20/" + strings.ToLower(c.Hex()), ""}
+		}
+		n := 0
+		for i, d := range pair {
+			if d == "" {
+				continue
+			}
+			if !a.BankKeeper.HasSupply(ch.cur(), d) {
+				ch.mintTo(r.userAcc(), sdk.NewCoins(sdk.NewCoin(d, sdkmath.NewInt(1_000_000))))
+			}
+			md := banktypes.Metadata{Description: "coin " + d, Base: d, Display: d, Name: fmt.Sprintf("Case%d-%d", op.A%4, i), Symbol: fmt.Sprintf("CS%d%d", op.A%4, i),
+				DenomUnits: []*banktypes.DenomUnit{{Denom: d, Exponent: 0}}}
+			if ch.send(&erc20types.MsgRegisterCoin{Authority: c18Gov, Title: "t", Description: "d", Metadata: md}) == nil {
+				n++
+			}
+		}
+		r.e.Stats.Count(fmt.Sprintf("op:regcoin-case:family%d:registered=%d", op.A%4, n))
 	case "rmliq-all":
 		pools := a.CoinswapKeeper.GetAllPools(ch.cur())
 		if len(pools) == 0 {
